@@ -15,7 +15,7 @@ HEARTS = ["♥", "❤", "💕", "💖"]
 
 
 def scripted(rng, with_read=None, mode=None):
-    mode = mode or rng.choice(["mixed", "mixed", "same-heart"])
+    mode = mode or rng.choice(["mixed", "mixed", "same-heart", "two-hearts"])
     n_dec = rng.choice([3, 5, 8, 12, 16])
     decisions = [rng.choice([0, 0, 5]) for _ in range(n_dec)]          # 0 -> left branch (0 < 3), 5 -> right (5 < 3 false)
     prog = []
@@ -27,7 +27,10 @@ def scripted(rng, with_read=None, mode=None):
     for i in range(m):
         if i == read_at:
             prog += ["흑", "항.", "흑..."]                                 # read one character, print it, back to stack 3
-        if mode == "same-heart":
+        if mode == "two-hearts":
+            # both branches carry (different) labels: a command visited twice registers two labels at the same place
+            left, right = rng.sample(HEARTS[:3], 2)
+        elif mode == "same-heart":
             # every command carries the same label and returns through the white heart: loops made of white-heart jumps only
             left, right = "♥", rng.choice(["♡", "♡", ""])
         else:
